@@ -97,7 +97,7 @@ def check_truncation(case):
 
 
 # ---- (iii) streams with damaged messages ----------------------------------------------------------
-FAULTS = ['stop', 'unknown_element', 'unknown_sequence', 'length_minus', 'length_plus']
+FAULTS = ['stop', 'unknown_element', 'unknown_sequence', 'length_minus', 'length_plus', 'element_to_operator']
 UNKNOWN_E = [63255, 48001, 1250, 12250]
 UNKNOWN_S = [363255, 348001, 301250]
 
@@ -124,6 +124,31 @@ def apply_fault(case, fault, ch):
         b[off] = (f << 6) | x
         b[off + 1] = y
         return bytes(b), {'fault': 'undefined descriptor substituted', 'index': i, 'was': case.ids[i], 'now': u}
+    if fault == 'element_to_operator':
+        # an element descriptor of section 3 replaced by an operator that opens a scope (201 / 202 / 207 / 208 YYY): the
+        # descriptor list is still well formed (the scope stays open to the end of the subset or to the next cancellation)
+        # but no longer describes the data.  What is left may or may not be readable -- it must be delivered or refused
+        # with the library's error, nothing else.  (Positions where the replacement would make the list ill formed -- the
+        # 031021 after 204YYY, a replication factor, the descriptor after 206YYY, a 203YYY definition -- are not used.)
+        pos = []
+        in203 = False
+        for i, d in enumerate(case.ids):
+            if d // 1000 == 203:
+                in203 = d % 1000 not in (0, 255)
+            prev = case.ids[i - 1] if i else 0
+            if d // 100000 == 0 and d // 1000 != 31 and not in203 and prev // 1000 not in (204, 206) and \
+                    not (prev // 100000 == 1 and prev % 1000 == 0):
+                pos.append(i)
+        if not pos:
+            raise Reject('no descriptor of that kind to replace')
+        i = pos[ch.int(0, len(pos) - 1)]
+        u = ch.choice([201129, 201130, 201136, 201126, 202129, 202130, 202127, 207001, 207002, 208002, 208010])
+        off = info['offsets'][3] + 7 + 2 * i
+        f, x, y = u // 100000, (u // 1000) % 100, u % 1000
+        b[off] = (f << 6) | x
+        b[off + 1] = y
+        return bytes(b), {'fault': 'element replaced by an operator', 'index': i, 'was': case.ids[i], 'now': u,
+                          'maybe_decodable': True}
     secs = [k for k in (1, 2, 3, 4) if k in info['offsets'] and k in info['lengths']]
     k = ch.choice(secs)
     # mostly off by a few octets; sometimes by more than the stop signature / the following section is long
@@ -199,12 +224,14 @@ def gen_stream(ch, opts):
         dam, desc = apply_fault(cases[i], fault, ch)
         if b'BUFR' in dam[4:]:
             raise Reject('damage created a start signature')
-        if not detectable(dam):
+        if not desc.get('maybe_decodable') and not detectable(dam):
             raise Reject('damage not detectable (%s)' % desc['fault'])
         faults[i] = (dam, desc)
     seps = [ch.choice(gstreams.SEPARATORS) for _ in range(n + 1)]
     sc = StreamCase(cases, seps, faults)
     for i in sorted(idxs):
+        if faults[i][1].get('maybe_decodable'):
+            continue
         if not visible_without_total(sc.stream, sc.spans[i][0]):
             raise Reject('damage invisible to a reader that ignores the total length')
     return sc
@@ -241,6 +268,10 @@ def check_stream(case):
     if bad and bad[0] == 0:
         out.classes.append('first_message_damaged')
     want = [case.pieces[i] for i in good]
+    # a hand-built change whose result the library may well read (an operator in the place of an element gives a template
+    # whose reading FM-94 leaves open, DESIGN 10-2): the message may be delivered or skipped, but nothing else may happen
+    maybe = [i for i in bad if case.faults[i][1].get('maybe_decodable')]
+    may_deliver = [case.pieces[i] for i in range(n) if i in good or i in maybe]
     sink = io.StringIO()
     for kind in ('plain', 'compiled'):
         dec = decoder(kind)
@@ -252,7 +283,9 @@ def check_stream(case):
                      error=str(exc)[:200], faults=[case.faults[i][1] for i in bad])
         else:
             gb = [m.serialized_bytes for m in got]
-            if gb != want:
+            if maybe and is_subsequence(want, gb) and is_subsequence(gb, may_deliver):
+                pass
+            elif gb != want:
                 out.fail('continue-on-error scan does not deliver exactly the undamaged messages (%s decoder)' % kind,
                          delivered=[case.pieces.index(x) if x in case.pieces else None for x in gb], undamaged=good,
                          faults=[case.faults[i][1] for i in bad])
@@ -267,7 +300,9 @@ def check_stream(case):
         got, exc = run_scan(dec, case.stream, continue_on_error=False)
         gb = [m.serialized_bytes for m in got]
         first = bad[0]
-        if exc is None:
+        if exc is None and len(maybe) == len(bad) and gb == case.pieces:
+            pass
+        elif exc is None:
             out.fail('a scan without continue-on-error finished although a message is damaged (%s decoder)' % kind,
                      faults=[case.faults[i][1] for i in bad], n_delivered=len(gb))
         else:
@@ -275,7 +310,7 @@ def check_stream(case):
                 out.fail('damage surfaces as %s@%s, not as the library error (%s decoder)' % (
                     type(exc).__name__, sut.innermost_sut_frame(exc.__traceback__), kind), error=str(exc)[:200],
                     fault=case.faults[first][1])
-            if gb != case.pieces[:first]:
+            if gb != case.pieces[:first] and not (maybe and is_subsequence(case.pieces[:first], gb) and is_subsequence(gb, may_deliver)):
                 out.fail('without continue-on-error the messages before the damaged one are not all delivered (%s decoder)' % kind,
                          n_delivered=len(gb), expected=first)
         # info-only scans: nothing but messages of the stream, the undamaged ones in order
@@ -316,7 +351,7 @@ def check_cli(case):
                 out.fail('the command line prints a traceback for "%s"' % ' '.join(argv[:-1]))
         first_bad = min(i for i, f in enumerate(case.faults) if f)
         o, so, se = cli.run_main(['decode', '-m', path])
-        if o.ok and not se.strip():
+        if o.ok and not se.strip() and not all(f[1].get('maybe_decodable') for f in case.faults if f):
             out.fail('decode -m on a damaged stream reports nothing on stderr')
     return out
 
